@@ -174,8 +174,41 @@ func (c *checker) failCross(what string, r replay) {
 	}
 }
 
+// unmodel: tlabridge reads the model value defaultInitValue as the string of its name; put the zero Value back.
+func unmodel(v tla.Value) tla.Value {
+	switch {
+	case v.IsString() && v.AsString() == "defaultInitValue":
+		return tla.ModuledefaultInitValue
+	case v.IsSet():
+		var el []tla.Value
+		it := v.AsSet().Iterator()
+		for !it.Done() {
+			k, _, _ := it.Next()
+			el = append(el, unmodel(k))
+		}
+		return tla.MakeSet(el...)
+	case v.IsTuple():
+		var el []tla.Value
+		it := v.AsTuple().Iterator()
+		for !it.Done() {
+			_, e := it.Next()
+			el = append(el, unmodel(e))
+		}
+		return tla.MakeTuple(el...)
+	case v.IsFunction():
+		var f []tla.RecordField
+		it := v.AsFunction().Iterator()
+		for !it.Done() {
+			k, x, _ := it.Next()
+			f = append(f, tla.RecordField{Key: unmodel(k), Value: unmodel(x)})
+		}
+		return tla.MakeRecord(f)
+	}
+	return v
+}
+
 func kindName(s *shape) string {
-	return map[byte]string{'b': "bool", 'n': "number", 's': "string", 'S': "set", 'T': "tuple", 'F': "function"}[s.kind]
+	return map[byte]string{'b': "bool", 'n': "number", 's': "string", 'd': "default-init-value", 'S': "set", 'T': "tuple", 'F': "function"}[s.kind]
 }
 
 func safe(f func()) (panicked any) {
@@ -270,7 +303,7 @@ func (c *checker) checkInstance(in, canon0 *inst) {
 		parsed, err := tlabridge.ParseValue(txt, tlabridge.ParseOptions{})
 		if err != nil {
 			c.fail("string/unparseable/"+k, fmt.Sprintf("%v prints as %q which is not a TLA+ value expression: %v", in, txt, err), r)
-		} else if got := canonOf(parsed, true); got != in.sh.norm && !in.sh.ambig {
+		} else if got := canonOf(unmodel(parsed), true); got != in.sh.norm && !in.sh.ambig {
 			c.fail("string/denotes-other-value/"+k, fmt.Sprintf("%v prints as %q which denotes %s, not %s", in, txt, got, in.sh.norm), r)
 		}
 	}); p != nil {
@@ -438,7 +471,7 @@ func runHalf(causal bool, env hres.Env) (*checker, *halfStats) {
 	}
 	st.Instances = len(all)
 	for i := 0; i < len(all) && len(st.Samples) < 8; i += len(all)/8 + 1 {
-		st.Samples = append(st.Samples, fmt.Sprintf("%v  prints %s", all[i], all[i].val.String()))
+		safe(func() { st.Samples = append(st.Samples, fmt.Sprintf("%v  prints %s", all[i], all[i].val.String())) })
 	}
 
 	// one big table holding the canonical instance of every shape: lookups must find exactly the own shape
@@ -446,8 +479,13 @@ func runHalf(causal bool, env hres.Env) (*checker, *halfStats) {
 	bigIM := immutable.NewMap[tla.Value, int](tla.ValueHasher{})
 	for _, sh := range u.shapes {
 		if canon[sh.id] != nil {
-			bigHM.Set(canon[sh.id].val, sh.id)
-			bigIM = bigIM.Set(canon[sh.id].val, sh.id)
+			in := canon[sh.id]
+			if p := safe(func() {
+				bigHM.Set(in.val, sh.id)
+				bigIM = bigIM.Set(in.val, sh.id)
+			}); p != nil {
+				c.fail("panic/container-many-keys/"+kindName(sh), fmt.Sprintf("inserting %v into a hashmap / immutable.Map holding the other values: %v", in, p), replay{Check: "instance", A: in.ref()})
+			}
 		}
 	}
 	// which shapes may legitimately shadow each other in the big table: same TLA+ value, other representation
@@ -525,9 +563,13 @@ func runHalf(causal bool, env hres.Env) (*checker, *halfStats) {
 	rows := make([][]uint64, n) // rows[j] != nil only for columns
 	hashes := make([]uint32, n)
 	for i, in := range all {
-		in.hash = in.val.Hash()
-		if in.val.Hash() != in.hash {
-			c.fail("hash/unstable/"+kindName(in.sh), fmt.Sprintf("%v hashes differently on a second call", in), replay{Check: "instance", A: in.ref()})
+		if p := safe(func() {
+			in.hash = in.val.Hash()
+			if in.val.Hash() != in.hash {
+				c.fail("hash/unstable/"+kindName(in.sh), fmt.Sprintf("%v hashes differently on a second call", in), replay{Check: "instance", A: in.ref()})
+			}
+		}); p != nil {
+			c.fail("panic/hash/"+kindName(in.sh), fmt.Sprintf("%v: Hash panics: %v", in, p), replay{Check: "instance", A: in.ref()})
 		}
 		hashes[i] = in.hash
 	}
@@ -946,7 +988,7 @@ func TestCheck(t *testing.T) {
 		res.Coverage = map[string]any{
 			"evaluations":         evals,
 			"distinct_nontrivial": pst.StrictClasses,
-			"rule": "every value of the universe (atoms; every set/tuple/function of <=2 atoms; every set/tuple/function of <=2 members of a core of depth<=2 values (core_size), i.e. depth 3; two-pair functions take their values from a 2..4 element pool) " +
+			"rule": "every value of the universe (atoms incl. defaultInitValue, the zero Value; every set/tuple/function of <=2 atoms; every set/tuple/function of <=2 members of a core of depth<=2 values (core_size), i.e. depth 3; two-pair functions take their values from a 2..4 element pool) " +
 				"is built through every constructor and insertion order (MakeSet orders and duplicates, MakeSetFromMap, \\cup, MakeTuple, Append, \\o, Tail, MakeRecord orders/overrides, :> @@ both orders, MakeRecordFromMap, MakeFunction, EXCEPT, alternative-built children); " +
 				"checked per instance: reflexivity, Equal+Hash against the canonical build, gob round trip alone and inside a message struct, String() re-parsed, lookup in a hashmap/immutable.Map holding every value; " +
 				"checked for pairs (thorough, unwrapped half: ALL ordered pairs of instances; otherwise: every instance x the canonical and the alternative-children build of every value, wrapped and unwrapped = pair_columns): symmetry, same value => Equal, different TLA+ value => not Equal, Equal => same Hash, and agreement of \\in, function application, hashmap.Get, immutable.Map.Get with Equal (for all pairs of canonical builds and all pairs that are Equal, expected Equal or hash-colliding); " +
